@@ -178,9 +178,11 @@ fn build(picks: &[P], b: &mut B, depth: usize, xf: &dyn Fn(BBox) -> BBox) -> Vec
                     BBox::new(xa.min(xb), ya.min(yb), xa.max(xb), ya.max(yb))
                 };
                 let composed = |bb: BBox| xf(inner(bb));
+                let boxes_before = b.boxes.len();
                 let kids = build(&picks[i..i + k], b, depth + 1, &composed);
                 i += k;
-                if p.f % 11 == 0 && t.is_none() && !b.clip_ids.is_empty() {
+                // (invisible <box> elements are tracked by the generator, which does not model clipping: no clip on such groups)
+                if p.f % 11 == 0 && t.is_none() && !b.clip_ids.is_empty() && b.boxes.len() == boxes_before {
                     g.set("clip-path", format!("url(#{})", b.clip_ids[p.r as usize % b.clip_ids.len()]));
                 }
                 g.kids = kids.into_iter().map(X::El).collect();
